@@ -18,6 +18,11 @@ def civ(e, leap_label=False):
     return cal.Day(o).ymd() + "T%02d:%02d:%02d" % (s // 3600, s // 60 % 60, s % 60)
 
 
+def pt(x):
+    """an operand: a regular UTC second t, or (t, True) for the inserted second after t (t is then 23:59:59)"""
+    return x if isinstance(x, tuple) else (x, False)
+
+
 def side(L, t):
     """position of t relative to the table: (interval index, boundary side)"""
     import bisect
@@ -72,8 +77,9 @@ def rdiff_task(task):
     bindir, a, bs = task
     sh = Shard()
     L = leap.Leaps()
-    lines = [civ(b) for b in bs]
-    argv = [str(bindir / "ddiff"), civ(a), "-f", "%rS"]
+    a, bs = pt(a), [pt(b) for b in bs]
+    lines = [civ(*b) for b in bs]
+    argv = [str(bindir / "ddiff"), civ(*a), "-f", "%rS"]
     r = run(argv, stdin=("\n".join(lines) + "\n").encode(), cpu=30, wall=120)
     sh.procs += 1
     sh.check_san(r, "san", "leap:rdiff")
@@ -90,21 +96,24 @@ def rdiff_task(task):
     outs3 = outs3 + [None] * (len(bs) - len(outs3))
     outs = ["%s|%s" % (x, y) for x, y in zip(outs, outs2)]
     for b, got, got3 in zip(bs, outs, outs3):
-        lo, hi = min(a, b), max(a, b)
-        nl = L.leaps_between(lo, hi)
-        sgn = 1 if b >= a else -1
-        want_r = sgn * ((hi - lo) + nl)
-        want_s = b - a
-        _, sa = side(L, a)
-        _, sb = side(L, b)
+        # position on the line of SI seconds; an inserted second is one past the 23:59:59 before it
+        ca, cb = (x[0] + L.nleaps(x[0]) + x[1] for x in (a, b))
+        want_r = cb - ca
+        sgn = 1 if want_r >= 0 else -1
+        # in UTC the inserted second and the midnight after it are the same label
+        want_s = (b[0] + b[1]) - (a[0] + a[1])
+        nl = abs(want_r - want_s)
+        lo, hi = min(a[0], b[0]), max(a[0], b[0])
+        sa = "inserted" if a[1] else side(L, a[0])[1]
+        sb = "inserted" if b[1] else side(L, b[0])[1]
         c = ("rdiff", "+" if sgn > 0 else "-", "leaps%d" % min(nl, 3), sa, sb) + (("beyond-2^31",) if hi - lo >= 2 ** 31 else ())
         want3 = "%d|%d|%d" % (want_r, abs(want_s), abs(want_r))
         if got3 == want3:
             sh.ok("leap-diff", c + ("one-format",))
         else:
             sh.bad("leap-diff", "leap:rdiff3:%s:%s:a=%s:b=%s" % (c[1], "with-leaps" if nl else "no-leaps", sa, sb),
-                   "ddiff %s %s -f '%%rS|%%S|%%rS' -> %r, expected %s (%d leap second(s) in between)" % (civ(a), civ(b), got3, want3, nl),
-                   dict(argv=argv[:-1] + ["%rS|%S|%rS"], input=civ(b), expected=want3, observed=got3), cls=c + ("one-format",))
+                   "ddiff %s %s -f '%%rS|%%S|%%rS' -> %r, expected %s (%d leap second(s) in between)" % (civ(*a), civ(*b), got3, want3, nl),
+                   dict(argv=argv[:-1] + ["%rS|%S|%rS"], input=civ(*b), expected=want3, observed=got3), cls=c + ("one-format",))
         if got == "%d|%d" % (want_r, want_s):
             sh.ok("leap-diff", c)
         else:
@@ -116,8 +125,8 @@ def rdiff_task(task):
                 ds = "malformed"
             sh.bad("leap-diff", "leap:rdiff:%s:%s:%s:a=%s:b=%s" % (c[1], "with-leaps" if nl else "no-leaps", ds, sa, sb),
                    "ddiff %s %s -f %%rS (and -f %%S) -> %r, expected %d|%d (%d leap second(s) in between)" %
-                   (civ(a), civ(b), got, want_r, want_s, nl),
-                   dict(argv=argv, input=civ(b), expected="%d|%d" % (want_r, want_s), observed=got), cls=c)
+                   (civ(*a), civ(*b), got, want_r, want_s, nl),
+                   dict(argv=argv, input=civ(*b), expected="%d|%d" % (want_r, want_s), observed=got), cls=c)
     return sh
 
 
@@ -125,27 +134,29 @@ def radd_task(task):
     bindir, n, ts = task
     sh = Shard()
     L = leap.Leaps()
-    ts = [t for t in ts if t >= 0 and t + n >= 0]
+    ts = [pt(t) for t in ts]
+    ts = [t for t in ts if t[0] >= 0 and t[0] + n >= 0]
     if not ts:
         return sh
-    lines = [civ(t) for t in ts]
+    lines = [civ(*t) for t in ts]
     argv = [str(bindir / "dadd"), "--", "%+drs" % n]
     r = run(argv, stdin=("\n".join(lines) + "\n").encode(), cpu=30, wall=120)
     sh.procs += 1
     sh.check_san(r, "san", "leap:radd")
     outs, _ = align_lines(lines, r)
-    for t, got in zip(ts, outs):
-        u, lab = L.add_si(t, n)
+    for (t, tlab), got in zip(ts, outs):
+        # from an inserted second: one SI second past the 23:59:59 before it
+        u, lab = L.add_si(t, n + tlab)
         want = civ(u, lab)
         crossed = L.leaps_between(min(t, u), max(t, u) + (1 if lab else 0))
         c = ("radd", "+" if n > 0 else "-", "lands-on-leap" if lab else "crosses%d" % min(crossed, 2),
-             "small" if abs(n) < 100 else "day" if abs(n) < 200000 else "year")
+             "small" if abs(n) < 100 else "day" if abs(n) < 200000 else "year") + (("from-inserted",) if tlab else ())
         if got == want:
             sh.ok("leap-add", c)
         else:
-            sh.bad("leap-add", "leap:radd:%s:%s:%s" % (c[1], c[2], c[3]),
-                   "dadd %s %+drs -> %r, %d SI seconds later is %s" % (civ(t), n, got, n, want),
-                   dict(argv=argv, input=civ(t), expected=want, observed=got), cls=c)
+            sh.bad("leap-add", "leap:radd:%s:%s:%s%s" % (c[1], c[2], c[3], ":from-inserted" if tlab else ""),
+                   "dadd %s %+drs -> %r, %d SI seconds later is %s" % (civ(t, tlab), n, got, n, want),
+                   dict(argv=argv, input=civ(t, tlab), expected=want, observed=got), cls=c)
     return sh
 
 
@@ -272,7 +283,9 @@ def main(tier, seed):
                      # far apart: differences beyond 2^31 and 2^32 s
                      [0, 1, L.ts[0] - 1, 2 ** 31 + 5, L.ts[0] + 2 ** 31, L.ts[0] + 2 ** 31 - 28, L.steps[-1] + 2 ** 31 - 1, L.steps[-1] + 2 ** 32,
                       EP_MAX - 100] + [rng.randrange(2 ** 31, EP_MAX) for _ in range(6)]))
-    anchors = pts if not quick else rng.sample(pts, 40) + [L.steps[0] - 1, L.steps[0], L.steps[-1] - 1, L.steps[-1]]
+    ins = [(t - 1, True) for t in L.steps]
+    pts = pts + ins
+    anchors = pts if not quick else rng.sample(ins, 6) + rng.sample(pts, 40) + [L.steps[0] - 1, L.steps[0], L.steps[-1] - 1, L.steps[-1]]
     for a in anchors:
         tasks.append(("rdiff", (bindir, a, pts + [rng.randrange(L.ts[0], L.ts[-1] + 10 ** 8) for _ in range(30)])))
     # +Nrs
@@ -284,7 +297,7 @@ def main(tier, seed):
     spans = rng.sample(spans, 12 if quick else 400) + [63072001, 94608001, 142128001, L.steps[-1] - L.steps[0] + 1]
     for n in [1, 2, 3, 4, 5, 6, 86400, 86401, 31536000, 63072000] + spans + [rng.randrange(1, 10 ** 8) for _ in range(6 if quick else 80)]:
         for s in (1, -1):
-            tasks.append(("radd", (bindir, s * n, add_ts + [rng.randrange(L.ts[0] + 100, L.ts[-1] + 10 ** 8) for _ in range(40)])))
+            tasks.append(("radd", (bindir, s * n, add_ts + ins + [rng.randrange(L.ts[0] + 100, L.ts[-1] + 10 ** 8) for _ in range(40)])))
     # the same additions with the operand given in a zone's wall clock and further durations next to the real seconds
     for zone in ZONES:
         for n in [1, 2, 5, 30, 86401] + [rng.randrange(1, 10 ** 6) for _ in range(2 if quick else 20)]:
@@ -298,14 +311,15 @@ def main(tier, seed):
     ctx.rule = ("events: (0) dconv --from-zone TAI|GPS for stamps -1..+38 s around every table entry (the inverse mapping); (1) dconv --zone TAI|GPS at every table entry -2..+2 s, interval midpoints, year starts to 4093, "
                 "2^31 and 2^32 +-1, random: the applied offset must be the table value (TAI-UTC of the last entry <= t; "
                 "GPS = TAI-19 from 1980-01-06); (2) ddiff A B -f '%%rS|%%S' on ordered pairs of boundary instants: real "
-                "seconds = UTC difference + leap seconds in (A,B], antisymmetric, also for operands more than 2^31 and 2^32 s apart, and with %%rS|%%S|%%rS in one format; (3) dadd DT +-Nrs for instants -5..+5 s "
-                "around every inserted second x N in {1..6, 86400, 86401, 1 y, 2 y, random}: lands N SI seconds later, "
+                "seconds = UTC difference + leap seconds in (A,B], antisymmetric, also for operands more than 2^31 and 2^32 s apart, with %%rS|%%S|%%rS in one format, and with either operand an inserted second 23:59:60; (3) dadd DT +-Nrs for instants -5..+5 s "
+                "around every inserted second (and from the inserted seconds themselves) x N in {1..6, 86400, 86401, 1 y, 2 y, random}: lands N SI seconds later, "
                 "23:59:60 exactly on inserted seconds; N also the distance between any two insertions +-3 s; (4) the same with the operand in a zone's wall clock "
                 "(dadd --from-zone Z -- [Kd] Nrs [0d], %d zones): real seconds count on the UTC line. Oracle = lib/leap-seconds.list (%d entries, %d insertions). "
                 "distinct_nontrivial = distinct (monitor, sign/zone, era or leaps crossed, side of the boundary)" %
                 (len(ZONES), len(L.ts), len(L.steps)))
     ctx.assumptions = ["TAI-UTC before 1972-01-01 is taken as the table's first value (10 s)",
-                       "the first table row (1972-01-01, 10 s) is not an inserted second", "operands are regular UTC seconds (23:59:60 only as a result)"]
+                       "the first table row (1972-01-01, 10 s) is not an inserted second",
+                       "23:59:60 as an operand is accepted only where the table has an insertion; in the UTC difference (%S) it is the same label as the following midnight"]
     ctx.min_evals = 5000
     return ctx.finish()
 
